@@ -63,6 +63,25 @@ def c01_scenarios(rng, n):
                 s["tree"]["p.diff"] = ("R", 0o644, text)
             s["opts"]["p"] = depth
         scns.append(s)
+    # longer files, many hunks, function headings on every hunk separator (diff -p / -F), all three formats with a separator
+    for _ in range(n // 8):
+        a = [("%s line %d" % (rng.choice(["int f", "x", "  y", "def g", "z"]), i), "L") for i in range(rng.randint(18, 30))]
+        ops = [(" ", l) for l in a]
+        for i in sorted(rng.sample(range(len(a)), rng.randint(2, 4)), reverse=True):
+            ops[i] = ("-", a[i]); ops.insert(i + 1, ("+", (a[i][0] + " changed", "L")))
+        fmt = rng.choice(["context", "context", "unified", "git"])
+        hs = gen.hunks_from_ops(ops, rng.choice([0, 1, 1, 2]))
+        for h in hs:
+            h["heading"] = rng.choice(["int f(void)", "def g(x):", "static int h (a, b)", "sub s {"])
+        path = rng.choice(["big.c", "src/big.c"])
+        if fmt == "context":
+            text = emit.emit_context("a/" + path, "b/" + path, hs, "2024-01-01 00:00:00.000000000 +0000", "2024-01-02 00:00:00.000000000 +0000")
+        elif fmt == "git":
+            text = emit.emit_git(path, path, hs)
+        else:
+            text = emit.emit_unified("a/" + path, "b/" + path, hs, "2024-01-01 00:00:00.000000000 +0000", "2024-01-02 00:00:00.000000000 +0000")
+        sec = dict(path=path, newpath=path, a=a, b=[l for o_, l in ops if o_ != "-"], text=text, fmt=fmt, kind="change", hs=hs, ops=ops, mode_old=None, mode_new=None, w=1)
+        scns.append(scen.base_scenario(rng, [sec], opts={}))
     return scns
 
 
